@@ -279,8 +279,26 @@ def judge_traces(out, entries, res, relevant, domain=None, per_grammar=2):
                     print('DEBUG other-class reject', cls, json.dumps(trace_violation(e, rj, cls)['summary'])[:700])
     for c, n in other.items():
         out.notes.append('%d rejected trace(s) of class %r (judged by another property)' % (n, c))
+    # a process that dies (signal, abort, watchdog) while parsing with a grammar of this check's corpus delivered none of the
+    # behaviour the property describes for the remaining inputs: the first input without a result is the witness
+    by_gid = {e.gid: e for e in entries}
     for gid, rc in res.crashed:
-        out.notes.append('harness process died while parsing grammar %s (exit %s)' % (gid, rc))
+        e = by_gid.get(gid)
+        if e is None or (domain is not None and gid not in domain):
+            out.notes.append('harness process died while parsing grammar %s (exit %s)' % (gid, rc))
+            continue
+        done = {t['id'] for t in e.traces}
+        first = [j for j in e.jobs if j[0] not in done][:1]
+        out.violations.append({'summary': {'grammar': gid, 'rules': ['%s -> %s%s' % (l, ' '.join(r) or 'eps', ' [%d]' % p if p else '') for (l, r, p) in e.g.rules],
+                                           'class': 'the process died (exit %s) while parsing%s' % (rc, ' - no result within the time budget' if rc == 124 else ''),
+                                           'input': bytes(first[0][6]).decode('latin-1') if first else None,
+                                           'options': {'verbose': first[0][3], 'ws': first[0][4], 'nl': first[0][5], 'stream': first[0][2]} if first else None},
+                               'kind': 'parser', 'gname': e.g.name, 'mode': e.mode, 'gid': gid, 'dflt': list(getattr(e, 'dflt', ())), 'lexterms': getattr(e, 'lexterms', None),
+                               'lexshape': getattr(e, 'lexshape', 'list'), 'clex': getattr(e, 'clex', False), 'ctxr': list(getattr(e, 'ctx', ())), 'postprec': list(getattr(e, 'postprec', ())),
+                               'defines': list(getattr(e, 'defines', ())), 'noval': list(getattr(e, 'noval', ())), 'nvterms': list(getattr(e, 'nvterms', ())), 'ctx': first[0][7] if first else 0,
+                               'grammar': {'nts': e.g.nts, 'ts': e.g.ts, 'root': e.g.root, 'rules': e.g.rules, 'tprec': e.g.tprec, 'tassoc': e.g.tassoc},
+                               'bytes': first[0][6] if first else [], 'ws': first[0][4] if first else 1, 'nl': first[0][5] if first else 1, 'verbose': first[0][3] if first else 0,
+                               'stream': first[0][2] if first else 0, 'buf': first[0][1] if first else 0})
 
 
 def judge_abandoned(out, entries, res, domain, workname, what=('ok', 'msgs'), per_grammar=2):
@@ -462,6 +480,9 @@ def check_C09(tier, seed):
     # terms with display names of their own (regex_term's custom name, wrapped in typed_term) in a grammar where token ORDER
     # matters: the one message must name the offending term as the grammar's author named it
     lex_entries.append(pipeline.lex_entry('c09named', [lxl.R('[1-9][0-9]*', 'number'), lxl.C('+'), lxl.R('[a-z]+', 'ident'), lxl.S('if')], shape='pairs'))
+    # two terms with ONE display name and different ids (a regex term named like the keyword it generalises): rule symbols are
+    # resolved by id, so the grammar below is what was written - the messages name either of them 'id'
+    lex_entries.append(pipeline.lex_entry('c09samename', [lxl.S('id'), lxl.C('='), lxl.R('[a-z]+', 'id')], shape='pairs'))
     for el in lex_entries:
         alpha = sorted({b for t in el.lexterms for b in ([t[1]] if t[0] == 'C' else t[1]) if 32 < b < 127 and chr(b) not in '[]()*+?|{}\\^-.'} | {ord('i'), ord('1'), ord('+'), ord('=')})[:7]
         ins = []
@@ -1635,7 +1656,7 @@ def check_C07(tier, seed):
             if 'limit' in err and ('constexpr' in err) and ('exceed' in err or 'maximum' in err):
                 raise Infra('constant-evaluation limit of %s hit for %s (raise the limit; not a verdict)' % (kind, e.gid))
             import re as _re
-            bad = sorted(set(int(x) for x in _re.findall(r'CT(\d+):', err)) | set(int(x) for x in _re.findall(r"'r(\d+)'", err)) | set(int(x) for x in _re.findall(r'\br(\d+)\b(?= must be initialized| is not a constant)', err)))
+            bad = sorted(set(int(x) for x in _re.findall(r'CT(\d+):', err)) | set(int(x) for x in _re.findall(r"'[rv](\d+)'", err)) | set(int(x) for x in _re.findall(r'\b[rv](\d+)\b(?= must be initialized| is not a constant)', err)))
             if not bad:
                 bad = [-1]
             for i in bad[:3]:
